@@ -46,7 +46,7 @@ Proof. unfold g_identity. cbn. unfold so2_exp, so2t_angle. mat_unfold. rewrite c
 
 Definition SO2_core : GroupCore (SO2 RS eps).
 Proof.
-  refine (mkCore _ so2_valid hom2 _ _ _ _ _ _ _ _ _ _ _); cbn [g_compose g_inverse g_transform g_act g_tra g_actdim SO2].
+  refine (mkCore _ so2_valid hom2 (fun _ => hom2) _ _ _ _ _ _ _ _ _ _ _); cbn [g_compose g_inverse g_transform g_act g_tra g_actdim SO2].
   - intros X Y (ar & ai & -> & Ha) (br & bi & -> & Hb). rewrite so2_compose_valid_eq by assumption.
     eexists _, _; split; [reflexivity|]. apply unit_mul; assumption.
   - intros X (r & i & -> & H). unfold so2_inverse, so2_real, so2_imag; mat_unfold.
@@ -97,7 +97,7 @@ Qed.
 
 Definition SE2_core : GroupCore (SE2 RS eps).
 Proof.
-  refine (mkCore _ se2_valid hom2 _ _ _ _ _ _ _ _ _ _ _); cbn [g_compose g_inverse g_transform g_act g_tra g_actdim SE2].
+  refine (mkCore _ se2_valid hom2 (fun _ => hom2) _ _ _ _ _ _ _ _ _ _ _); cbn [g_compose g_inverse g_transform g_act g_tra g_actdim SE2].
   - intros X Y (ax & ay & ar & ai & -> & Ha) (bx & by_ & br & bi & -> & Hb).
     rewrite se2_compose_valid_eq by assumption.
     eexists _, _, _, _; split; [reflexivity|]. apply unit_mul; assumption.
